@@ -124,6 +124,17 @@ let () =
                 | "permcols", p -> List.map (fun s -> List.nth cn (int_of_string s)) p
                 | _ -> cn) in
               print_lp_block "t" u' cn')
+         | "libsol", (mx :: v :: rest) ->
+           (* libsol <max 0|1> <val> <nrows> pi.. rc.. : what ILLlib_solution hands out for these internal values *)
+           (match rest with
+            | m :: r ->
+              let m = int_of_string m in
+              let all = qlist r in
+              let rec take k l = if k = 0 then ([], l) else (match l with x :: t -> let (a, b) = take (k - 1) t in (x :: a, b) | [] -> ([], [])) in
+              let (pi, rc) = take m all in
+              let ((v', pi'), rc') = lib_solution (mx = "1") (q_of_string v) pi rc in
+              Printf.printf "A %s %s | %s | %s\n" id (string_of_q v') (qs_join pi') (qs_join rc')
+            | [] -> failwith "libsol arity")
          | "todouble", [ v ] ->
            let q0 = q_of_string v in
            Printf.printf "A %s %s %s\n" id (string_of_q (to_double q0)) (string_of_q (ulp0 q0))
